@@ -4,6 +4,8 @@ set -e
 N=$1
 VBASE=cfac380e66cd44f1006aac541ab20401a8143f88
 RBASE=8f401d8
+[ -f /work/$N/VBASE ] && VBASE=$(cat /work/$N/VBASE)
+[ -f /work/$N/RBASE ] && RBASE=$(cat /work/$N/RBASE)
 rm -rf /tmp/merge-$N && mkdir -p /tmp/merge-$N/v /tmp/merge-$N/r
 git -C /work/$N/verif format-patch -q -o /tmp/merge-$N/v $VBASE..HEAD
 git -C /work/$N/repo format-patch -q -o /tmp/merge-$N/r $RBASE..HEAD || true
